@@ -5002,7 +5002,12 @@ class PyCdlib:
 
             (udf_name, udf_parent) = self._udf_name_and_parent_from_path(udf_path_bytes)
 
-            num_extents_to_remove = udf_parent.remove_file_ident_desc_by_name(udf_name,
+            # The File Identifier stores the name in its on-disc encoding
+            # (latin-1 or utf-16_be), which differs from the UTF-8 path
+            # component for any non-ASCII name, so look it up first.
+            udf_fi = udf_parent.find_file_ident_desc_by_name(udf_name).fi
+
+            num_extents_to_remove = udf_parent.remove_file_ident_desc_by_name(udf_fi,
                                                                               self.logical_block_size)
             # Remove space (if necessary) in the parent File Identifier
             # Descriptor area.
